@@ -85,6 +85,7 @@ func init() {
 			enumV2Temporal(r, P, st, []int{0, 1, 2}, []map[string]string{{}, {"CDP": "LM", "TD": "M", "CR": "H", "IR": "L", "AR": "ND"}})
 		}
 		r.Phase("score sequences", func() { scoreSequences(r, 2, 0); scoreSequences(r, 2, 1) })
+		r.Phase("higher levels queried first", func() { topFirstSweep(r, 2, 0); topFirstSweep(r, 2, 1) })
 		r.Phase("first use in fresh processes", func() { firstUseScores(r, 2, 0) })
 		st.report(r, 2)
 		r.Set("oracle_exact_ties", int64(oracle.GetV2().Ties))
